@@ -88,3 +88,36 @@ Properties/C16.vos Properties/C16.vok Properties/C16.required_vos: Properties/C1
 Properties/C17.vo Properties/C17.glob Properties/C17.v.beautified Properties/C17.required_vo: Properties/C17.v Model.vo Proofs/Driver.vo
 Properties/C17.vio: Properties/C17.v Model.vio Proofs/Driver.vio
 Properties/C17.vos Properties/C17.vok Properties/C17.required_vos: Properties/C17.v Model.vos Proofs/Driver.vos
+Spec/Json.vo Spec/Json.glob Spec/Json.v.beautified Spec/Json.required_vo: Spec/Json.v Base.vo
+Spec/Json.vio: Spec/Json.v Base.vio
+Spec/Json.vos Spec/Json.vok Spec/Json.required_vos: Spec/Json.v Base.vos
+Spec/Codec.vo Spec/Codec.glob Spec/Codec.v.beautified Spec/Codec.required_vo: Spec/Codec.v Model.vo Spec/Json.vo
+Spec/Codec.vio: Spec/Codec.v Model.vio Spec/Json.vio
+Spec/Codec.vos Spec/Codec.vok Spec/Codec.required_vos: Spec/Codec.v Model.vos Spec/Json.vos
+Proofs/CodecRT.vo Proofs/CodecRT.glob Proofs/CodecRT.v.beautified Proofs/CodecRT.required_vo: Proofs/CodecRT.v Model.vo Spec/Json.vo Spec/Codec.vo
+Proofs/CodecRT.vio: Proofs/CodecRT.v Model.vio Spec/Json.vio Spec/Codec.vio
+Proofs/CodecRT.vos Proofs/CodecRT.vok Proofs/CodecRT.required_vos: Proofs/CodecRT.v Model.vos Spec/Json.vos Spec/Codec.vos
+Properties/C20.vo Properties/C20.glob Properties/C20.v.beautified Properties/C20.required_vo: Properties/C20.v Model.vo Spec/Json.vo Spec/Codec.vo Proofs/CodecRT.vo
+Properties/C20.vio: Properties/C20.v Model.vio Spec/Json.vio Spec/Codec.vio Proofs/CodecRT.vio
+Properties/C20.vos Properties/C20.vok Properties/C20.required_vos: Properties/C20.v Model.vos Spec/Json.vos Spec/Codec.vos Proofs/CodecRT.vos
+Proofs/InvLabels.vo Proofs/InvLabels.glob Proofs/InvLabels.v.beautified Proofs/InvLabels.required_vo: Proofs/InvLabels.v Model.vo Spec/Stack.vo Proofs/Trace.vo Proofs/InvNames.vo
+Proofs/InvLabels.vio: Proofs/InvLabels.v Model.vio Spec/Stack.vio Proofs/Trace.vio Proofs/InvNames.vio
+Proofs/InvLabels.vos Proofs/InvLabels.vok Proofs/InvLabels.required_vos: Proofs/InvLabels.v Model.vos Spec/Stack.vos Proofs/Trace.vos Proofs/InvNames.vos
+Properties/C10.vo Properties/C10.glob Properties/C10.v.beautified Properties/C10.required_vo: Properties/C10.v Model.vo Spec/Stack.vo Mon/Control.vo Proofs/ExecBasic.vo Proofs/InvLabels.vo
+Properties/C10.vio: Properties/C10.v Model.vio Spec/Stack.vio Mon/Control.vio Proofs/ExecBasic.vio Proofs/InvLabels.vio
+Properties/C10.vos Properties/C10.vok Properties/C10.required_vos: Properties/C10.v Model.vos Spec/Stack.vos Mon/Control.vos Proofs/ExecBasic.vos Proofs/InvLabels.vos
+Mon/C18.vo Mon/C18.glob Mon/C18.v.beautified Mon/C18.required_vo: Mon/C18.v Model.vo Spec/Tables.vo Mon/C12.vo
+Mon/C18.vio: Mon/C18.v Model.vio Spec/Tables.vio Mon/C12.vio
+Mon/C18.vos Mon/C18.vok Mon/C18.required_vos: Mon/C18.v Model.vos Spec/Tables.vos Mon/C12.vos
+Proofs/InvRet.vo Proofs/InvRet.glob Proofs/InvRet.v.beautified Proofs/InvRet.required_vo: Proofs/InvRet.v Model.vo Proofs/Trace.vo Proofs/InvNames.vo
+Proofs/InvRet.vio: Proofs/InvRet.v Model.vio Proofs/Trace.vio Proofs/InvNames.vio
+Proofs/InvRet.vos Proofs/InvRet.vok Proofs/InvRet.required_vos: Proofs/InvRet.v Model.vos Proofs/Trace.vos Proofs/InvNames.vos
+Proofs/InvTree.vo Proofs/InvTree.glob Proofs/InvTree.v.beautified Proofs/InvTree.required_vo: Proofs/InvTree.v Model.vo Spec/Tables.vo Mon/C12.vo Mon/C18.vo Proofs/Trace.vo Proofs/InvNames.vo Proofs/MonC12.vo
+Proofs/InvTree.vio: Proofs/InvTree.v Model.vio Spec/Tables.vio Mon/C12.vio Mon/C18.vio Proofs/Trace.vio Proofs/InvNames.vio Proofs/MonC12.vio
+Proofs/InvTree.vos Proofs/InvTree.vok Proofs/InvTree.required_vos: Proofs/InvTree.v Model.vos Spec/Tables.vos Mon/C12.vos Mon/C18.vos Proofs/Trace.vos Proofs/InvNames.vos Proofs/MonC12.vos
+Properties/C11.vo Properties/C11.glob Properties/C11.v.beautified Properties/C11.required_vo: Properties/C11.v Model.vo Proofs/Trace.vo Proofs/InvRet.vo
+Properties/C11.vio: Properties/C11.v Model.vio Proofs/Trace.vio Proofs/InvRet.vio
+Properties/C11.vos Properties/C11.vok Properties/C11.required_vos: Properties/C11.v Model.vos Proofs/Trace.vos Proofs/InvRet.vos
+Properties/C18.vo Properties/C18.glob Properties/C18.v.beautified Properties/C18.required_vo: Properties/C18.v Model.vo Mon/C18.vo Proofs/Trace.vo Proofs/InvTree.vo
+Properties/C18.vio: Properties/C18.v Model.vio Mon/C18.vio Proofs/Trace.vio Proofs/InvTree.vio
+Properties/C18.vos Properties/C18.vok Properties/C18.required_vos: Properties/C18.v Model.vos Mon/C18.vos Proofs/Trace.vos Proofs/InvTree.vos
